@@ -52,6 +52,15 @@ def slug(key: str) -> str:
 
 # ------------------------------------------------------------------ accumulator
 
+def _flat(o):
+    """Flatten an order key (nested tuples / ints) into a flat tuple of ints."""
+    if isinstance(o, (list, tuple)):
+        out = ()
+        for x in o: out += _flat(x)
+        return out
+    return (int(o),)
+
+
 class Acc:
     """Per-shard accumulator handed to `Check.run_case`."""
 
@@ -67,6 +76,7 @@ class Acc:
         self.violations = {}          # key -> (order, what, witness)
         self.samples = []
         self.capped = []              # names of caps that were hit
+        self.notes = {}               # key -> set of strings (merged by union), free-form per-case observations
         self._order = 0
         self._cur = None              # (index, case) of the case being run
 
@@ -79,6 +89,7 @@ class Acc:
             self._order += 1
         if witness is None and self._cur is not None:
             witness = self._cur[1]
+        order = _flat(order)
         old = self.violations.get(key)
         if old is None or order < old[0]:
             self.violations[key] = (order, what, jsonable(witness))
@@ -99,6 +110,9 @@ class Acc:
         if force or len(self.samples) < 2 or (len(self.samples) < 4 and (case_hash(case) ^ self.seed) % 97 == 0):
             self.samples.append(jsonable(case))
 
+    def note(self, key, values):
+        self.notes.setdefault(key, set()).update(values)
+
     def cap(self, name):
         if name not in self.capped: self.capped.append(name)
 
@@ -112,9 +126,10 @@ class Acc:
         self.traces += o.traces
         for k, v in o.counters.items(): self.counters[k] = self.counters.get(k, 0) + v
         for k, v in o.violations.items():
-            if k not in self.violations or tuple(v[0]) < tuple(self.violations[k][0]): self.violations[k] = v
+            if k not in self.violations or _flat(v[0]) < _flat(self.violations[k][0]): self.violations[k] = v
         self.samples += o.samples
         for c in o.capped: self.cap(c)
+        for k, v in o.notes.items(): self.notes.setdefault(k, set()).update(v)
 
 
 # ------------------------------------------------------------------ the check base class
@@ -182,7 +197,10 @@ def _shard_main(check: Check, tier, seed, shard, nshards, conn, deadline):
     err = None
     try:
         check.setup(tier)
+        maxcases = int(os.environ.get('VERIF_MAXCASES', '0') or 0)     # debugging aid only: reported as a cap
         for i, case in enumerate(check.cases(tier)):
+            if maxcases and i >= maxcases:
+                acc.cap(f'VERIF_MAXCASES={maxcases}'); break
             if (i + seed) % nshards != shard: continue
             if deadline and time.time() > deadline:
                 acc.cap(f'wall budget reached at case index {i}')
